@@ -918,6 +918,172 @@ def op_table():
             if cg[k_] > ca[k_]:
                 raise PropertyViolation(f"C14: {cg[k_]} relation line(s) {k_} for {ca[k_]} link(s) between those vertices")
 
+    def _iso(E, a0, b0, skip=("_Vertex__qa_nb_cache",)):
+        """structural isomorphism of the object graphs reachable from a0 / b0: same classes (qualified names), same uids and
+        attributes, same ordered links / ends / members / universes, shared objects (edgegraph objects, lists, dicts) still shared,
+        nothing of the copy is an object of the original.  Returns None or a description of the first difference."""
+        base = (E["BaseObject"], E["UniverseLaws"])
+        fwd, bwd = {}, {}
+        work = [(a0, b0, "root")]
+        while work:
+            a, b, where = work.pop()
+            if isinstance(a, base) or isinstance(a, (list, dict)):
+                if id(a) in fwd:
+                    if fwd[id(a)] is not b:
+                        return f"{where}: an object shared in the original is not shared in the copy"
+                    continue
+                if id(b) in bwd:
+                    return f"{where}: two objects of the original became one in the copy"
+                fwd[id(a)], bwd[id(b)] = b, a
+            if isinstance(a, base):
+                if a is b:
+                    return f"{where}: the copy refers to an object of the original"
+                if type(a).__qualname__ != type(b).__qualname__ or type(a).__module__ != type(b).__module__:
+                    return f"{where}: class {type(a).__qualname__} became {type(b).__qualname__}"
+                da = {k: v for k, v in a.__dict__.items() if k not in skip}
+                db = {k: v for k, v in b.__dict__.items() if k not in skip}
+                if sorted(da) != sorted(db):
+                    return f"{where}: attributes {sorted(da)} became {sorted(db)}"
+                for k in da:
+                    work.append((da[k], db[k], f"{where}.{k}"))
+            elif isinstance(a, (list, tuple)):
+                if type(a) is not type(b) or len(a) != len(b):
+                    return f"{where}: {type(a).__name__} of {len(a)} became {type(b).__name__} of {len(b) if hasattr(b, '__len__') else '?'}"
+                for i, (x, y) in enumerate(zip(a, b)):
+                    work.append((x, y, f"{where}[{i}]"))
+            elif isinstance(a, dict):
+                if type(b) is not dict or len(a) != len(b):
+                    return f"{where}: dict of {len(a)} entries became {type(b).__name__}"
+                for (ka, va), (kb, vb) in zip(a.items(), b.items()):
+                    work.append((ka, kb, f"{where} key"))
+                    work.append((va, vb, f"{where}[{ka!r}]"))
+            elif isinstance(a, (int, str, bool, float, bytes, type(None))):
+                if type(a) is not type(b) or a != b:
+                    return f"{where}: {a!r} became {b!r}"
+            elif isinstance(a, type):
+                if not isinstance(b, type) or a.__qualname__ != b.__qualname__:
+                    return f"{where}: class object {a!r} became {b!r}"
+        return None
+
+    @reg("pickle_roundtrip", 3, "pickle")
+    def _(P, r, proto, mode):
+        """C10 (bounded stand-in): nrpickler.dumps -> pickle.loads / dill.loads gives an isomorphic, detached copy (every protocol);
+        the copy is usable with caching on after the class-level statistics were forgotten (= loaded in a fresh interpreter)"""
+        import pickle as _pk
+        if "nrpickler" not in P.mods:
+            return
+        mon_ = getattr(P, "mon", None)
+        if mon_ is not None and mon_.enabled:
+            mon_.enabled = False            # the copy is outside the monitored pool: this operation is judged by its own oracle
+            try:
+                return OPS["pickle_roundtrip"][0](P, r, proto, mode)
+            finally:
+                mon_.enabled = True
+        E = P.eg
+        allv = P.V + P.U
+        root = allv[r % len(allv)]
+        proto = proto % 6
+        mode = mode % 6
+        nb = P.mods["helpers"].neighbors
+        # shared mutable attribute values, empty at dump time (sharing must survive): two attributes of one object, and
+        # attributes of different objects
+        root.shared_a = root.shared_b = []
+        root.reg_a = root.reg_b = {}
+        if mode >= 4:
+            box, reg_ = [], {}
+            P.V[0].box = P.V[1].box = box
+            P.V[0].registry = P.U[0].registry = reg_
+        warm = mode % 2 == 1
+        if warm:
+            E["Vertex"].NEIGHBOR_CACHING = True
+            for v in allv:
+                try:
+                    nb(v)
+                except (NotImplementedError, IndexError, AttributeError):
+                    pass
+        try:
+            data = P.mods["nrpickler"].dumps(root, protocol=proto)
+        finally:
+            if warm:
+                E["Vertex"].NEIGHBOR_CACHING = False
+        if mode in (2, 3):
+            import dill as _dill
+            copy_ = _dill.loads(data)
+        else:
+            copy_ = _pk.loads(data)
+        why = _iso(E, root, copy_)
+        if why:
+            raise PropertyViolation(f"C10: protocol {proto}: {why}")
+        # the copy in a fresh interpreter: the class-level statistics know none of its uids
+        flag = E["Vertex"].NEIGHBOR_CACHING
+        saved = dict(E["Vertex"]._CACHE_STATS)
+        E["Vertex"]._CACHE_STATS.clear()
+        try:
+            E["Vertex"].NEIGHBOR_CACHING = True
+            cverts = [x for x in getattr(copy_, "vertices", [])] if isinstance(copy_, E["Universe"]) else []
+            cverts.append(copy_)
+            for v in cverts:
+                for l in list(getattr(v, "links", ())):
+                    if len(l.vertices) != 2 or any(e is None for e in l.vertices) or not isinstance(l, (E["DirectedEdge"], E["UnDirectedEdge"])):
+                        return
+            for v in cverts:
+                before = nb(v)
+                E["DirectedEdge"](v, cverts[0])              # a mutation of the copy must invalidate what travelled in its cache
+                cached = nb(v)
+                E["Vertex"].NEIGHBOR_CACHING = False
+                fresh = nb(v)
+                E["Vertex"].NEIGHBOR_CACHING = True
+                if not same_seq(cached, fresh):
+                    raise PropertyViolation("C10: on the loaded copy (statistics forgotten, caching on) neighbors() is stale after a mutation")
+                if len(fresh) != len(before) + 1:
+                    raise PropertyViolation("C10: a new edge on the loaded copy does not show in neighbors()")
+        finally:
+            E["Vertex"].NEIGHBOR_CACHING = flag
+            E["Vertex"]._CACHE_STATS.update(saved)
+
+    @reg("pickle_deep", 1, "pickle")
+    def _(P, n):
+        """C10 (bounded stand-in): a chain far deeper than the recursion limit pickles without RecursionError"""
+        if "nrpickler" not in P.mods:
+            return
+        mon_ = getattr(P, "mon", None)
+        if mon_ is not None and mon_.enabled:
+            mon_.enabled = False
+            try:
+                return OPS["pickle_deep"][0](P, n)
+            finally:
+                mon_.enabled = True
+        E = P.eg
+        n = 700 + 150 * (n % 3)
+        vs = [E["Vertex"]() for _ in range(n)]
+        for a, b in zip(vs, vs[1:]):
+            E["DirectedEdge"](a, b)
+        f, depth = sys._getframe(), 0
+        while f is not None:
+            depth, f = depth + 1, f.f_back
+        old = sys.getrecursionlimit()
+        sys.setrecursionlimit(depth + 80)
+        try:
+            data = P.mods["nrpickler"].dumps(vs[0])
+        except RecursionError:
+            raise PropertyViolation(f"C10: RecursionError while pickling a chain of {n} vertices with {80} frames of head room")
+        finally:
+            sys.setrecursionlimit(old)
+        import pickle as _pk
+        sys.setrecursionlimit(max(old, 50 * n))
+        try:
+            back = _pk.loads(data)
+        finally:
+            sys.setrecursionlimit(old)
+        k, v = 1, back
+        while True:
+            nxt = [l.v2 for l in v.links if l.v1 is v]
+            if not nxt:
+                break
+            v, k = nxt[0], k + 1
+        if k != n:
+            raise PropertyViolation(f"C10: a chain of {n} vertices came back with {k}")
+
     @reg("mutate_last_result", 1, "query")
     def _(P, k):
         # a caller may do anything with a container it was handed (C12)
@@ -1133,6 +1299,7 @@ GROUPS = {
     "C08": ("assoc", "explicit", "member", "traverse"),
     "C11": ("assoc", "explicit", "member", "adj"), "C20": ("rand",), "C15": ("assoc", "explicit", "member", "pyvis"),
     "C14": ("assoc", "explicit", "member", "puml"),
+    "C10": ("assoc", "explicit", "member", "cache", "pickle"),
 }
 
 
@@ -1169,16 +1336,21 @@ def fresh_world(repo_root, only=None):
     return mon, mods
 
 
+OPCOUNT = {}
+
+
 def run_history(hist, mon, mods, oracles=()):
     """replay one history from scratch; returns None or (step index, exception)"""
     mon.eg["Vertex"].NEIGHBOR_CACHING = False
     mon.eg["Vertex"]._CACHE_STATS = {}
     mon.enabled = False
     P = Pool(mon.eg, mods)
+    P.mon = mon
     mon.enabled = True
     mon.roots = []
     for k, (name, *args) in enumerate(hist):
         fn = OPS[name][0]
+        OPCOUNT[name] = OPCOUNT.get(name, 0) + 1
         mon.roots = P.roots()
         try:
             fn(P, *args)
@@ -1306,6 +1478,12 @@ def explore(pid, budget_s=30.0, seed=0, repo_root="/repo", only=None, max_len=6,
             if g in groups:
                 weights.setdefault(nm, 1.0)
         weights.update({"adj_dict": 8.0, "adj_matrix": 8.0, "randgraph": 8.0})
+    if "pickle" in groups:
+        weights = dict(weights or {})
+        for nm, (_f, _a, g) in OPS.items():
+            if g in groups:
+                weights.setdefault(nm, 1.0)
+        weights.update({"pickle_roundtrip": 7.0, "pickle_deep": 0.6, "new_edge": 4.0})
     if "traverse" in groups:
         # graph shape matters here: longer histories made mostly of edge creations, then traversals / searches
         max_len = max(max_len, 10)
@@ -1346,7 +1524,7 @@ def explore(pid, budget_s=30.0, seed=0, repo_root="/repo", only=None, max_len=6,
                 break
     return {"histories": n, "distinct": len(distinct), "calls": mon.stats["calls"], "calls_checked": mon.stats["checked"],
             "skipped_pre": mon.stats["skipped_pre"], "by_function": mon.stats["by_function"], "failure": failure,
-            "seconds": round(time.time() - t0, 2), "max_len": max_len, "seed": seed,
+            "seconds": round(time.time() - t0, 2), "max_len": max_len, "seed": seed, "op_counts": dict(OPCOUNT),
             "sample": [list(s) for s in (hist if n else [])]}
 
 
